@@ -135,6 +135,178 @@ def countLine (p : String) : String :=
   | [a, b, c, d] => showC (mergeMin (cOf a) (cOf c)) ++ " " ++ showC (mergeMax (cOf b) (cOf d))
   | _ => "bad"
 
+/-! ### `enum` (`mergeEnums`): no list = no constraint; two lists: the values of the shorter one that occur in the
+longer one (ties: the first member's), an empty intersection is refused (`allOf enum merging` not implemented) -/
+
+def okEnum (e : List Nat) (v : Nat) : Prop := e = [] ∨ v ∈ e
+
+def mergeEnums (e₁ e₂ : List Nat) : Option (List Nat) :=
+  if e₁ = [] then some e₂
+  else if e₂ = [] then some e₁
+  else
+    let r := if e₁.length > e₂.length then e₂.filter (fun v => e₁.contains v) else e₁.filter (fun v => e₂.contains v)
+    if r = [] then none else some r
+
+/-- **a value is admitted by the merged enum iff both members admit it** -/
+theorem mergeEnums_iff (e₁ e₂ r : List Nat) (v : Nat) (h : mergeEnums e₁ e₂ = some r) :
+    okEnum r v ↔ okEnum e₁ v ∧ okEnum e₂ v := by
+  unfold mergeEnums at h
+  by_cases h1 : e₁ = []
+  · simp [h1] at h; subst h; simp [okEnum, h1]
+  · by_cases h2 : e₂ = []
+    · simp [h1, h2] at h; subst h; simp [okEnum, h2]
+    · simp only [h1, h2, if_false] at h
+      by_cases hl : e₁.length > e₂.length
+      · simp only [hl, if_true] at h
+        split at h
+        · cases h
+        · rename_i hr
+          cases h
+          simp only [okEnum, hr, h1, h2, false_or, List.mem_filter, List.contains_iff_mem]
+          exact And.comm
+      · simp only [hl, if_false] at h
+        split at h
+        · cases h
+        · rename_i hr
+          cases h
+          simp only [okEnum, hr, h1, h2, false_or, List.mem_filter, List.contains_iff_mem]
+
+/-- **the merge is refused only when no value satisfies both members** (a refusal at generation time, never a
+    wrong verdict at run time) -/
+theorem mergeEnums_none_iff (e₁ e₂ : List Nat) :
+    mergeEnums e₁ e₂ = none ↔ e₁ ≠ [] ∧ e₂ ≠ [] ∧ ∀ v, ¬ (v ∈ e₁ ∧ v ∈ e₂) := by
+  unfold mergeEnums
+  by_cases h1 : e₁ = []
+  · simp [h1]
+  · by_cases h2 : e₂ = []
+    · simp [h1, h2]
+    · simp only [h1, h2, if_false, ne_eq, not_false_eq_true, true_and]
+      by_cases hl : e₁.length > e₂.length
+      · simp only [hl, if_true]
+        constructor
+        · intro h v ⟨a, b⟩
+          split at h
+          · rename_i hr
+            have : v ∈ e₂.filter (fun v => e₁.contains v) := by simp [List.mem_filter, a, b]
+            rw [hr] at this; cases this
+          · cases h
+        · intro h
+          have : e₂.filter (fun v => e₁.contains v) = [] := by
+            rw [List.filter_eq_nil_iff]; intro a ha; simp; intro hb; exact h a ⟨hb, ha⟩
+          rw [this]; simp
+      · simp only [hl, if_false]
+        constructor
+        · intro h v ⟨a, b⟩
+          split at h
+          · rename_i hr
+            have : v ∈ e₁.filter (fun v => e₂.contains v) := by simp [List.mem_filter, a, b]
+            rw [hr] at this; cases this
+          · cases h
+        · intro h
+          have : e₁.filter (fun v => e₂.contains v) = [] := by
+            rw [List.filter_eq_nil_iff]; intro a ha; simp; intro hb; exact h a ⟨ha, hb⟩
+          rw [this]; simp
+
+example : mergeEnums [1, 2, 3] [3, 4, 2, 9] = some [2, 3] := by decide
+example : mergeEnums [1, 2] [3] = none := by decide
+
+/-! ### `properties` / `required` (`mergeProperties`): the first member's properties in their order, then the second
+member's new ones; a property is required when either member flags it or either `required` list names it -/
+
+abbrev Prp := Nat × Bool   -- name, required flag
+
+def names (ps : List Prp) : List Nat := ps.map (·.1)
+
+def mergeProps (p₁ p₂ : List Prp) (req : List Nat) : List Prp :=
+  (p₁.map fun x => (x.1, x.2 || p₂.any (fun y => y.1 == x.1 && y.2) || req.contains x.1)) ++
+  ((p₂.filter fun y => !(names p₁).contains y.1).map fun y => (y.1, y.2 || req.contains y.1))
+
+/-- what the merged object demands of the key set `K` of a document -/
+def demands (ps : List Prp) (K : Nat → Prop) : Prop := ∀ p ∈ ps, p.2 = true → K p.1
+
+theorem mergeProps_names (p₁ p₂ : List Prp) (req : List Nat) :
+    names (mergeProps p₁ p₂ req) = names p₁ ++ (names p₂).filter (fun n => !(names p₁).contains n) := by
+  simp [names, mergeProps, List.map_append, List.filter_map, Function.comp_def]
+
+/-- **`required` of an allOf**: when each member's flags are its `required` list restricted to its declared
+    properties (what the parser builds) and every required name is declared by some member, a key set satisfies
+    the merged object iff it contains every name either member requires -/
+theorem mergeProps_required_iff (p₁ p₂ : List Prp) (r₁ r₂ : List Nat) (K : Nat → Prop)
+    (hc₁ : ∀ p ∈ p₁, p.2 = true → p.1 ∈ r₁) (hc₂ : ∀ p ∈ p₂, p.2 = true → p.1 ∈ r₂)
+    (hd : ∀ n, n ∈ r₁ ++ r₂ → n ∈ names p₁ ∨ n ∈ names p₂) :
+    demands (mergeProps p₁ p₂ (r₁ ++ r₂)) K ↔ (∀ n ∈ r₁, K n) ∧ (∀ n ∈ r₂, K n) := by
+  constructor
+  · intro h
+    have key : ∀ n, n ∈ r₁ ++ r₂ → K n := by
+      intro n hn
+      rcases hd n hn with h1 | h2
+      · obtain ⟨x, hx, rfl⟩ := List.mem_map.1 h1
+        have hm : (x.1, (x.2 || p₂.any (fun y => y.1 == x.1 && y.2) || (r₁ ++ r₂).contains x.1)) ∈
+            mergeProps p₁ p₂ (r₁ ++ r₂) := List.mem_append_left _ (List.mem_map.2 ⟨x, hx, rfl⟩)
+        have hk := h _ hm (by simp [List.mem_append.1 hn])
+        exact hk
+      · by_cases hin : n ∈ names p₁
+        · obtain ⟨x, hx, rfl⟩ := List.mem_map.1 hin
+          have hm : (x.1, (x.2 || p₂.any (fun y => y.1 == x.1 && y.2) || (r₁ ++ r₂).contains x.1)) ∈
+              mergeProps p₁ p₂ (r₁ ++ r₂) := List.mem_append_left _ (List.mem_map.2 ⟨x, hx, rfl⟩)
+          have hk := h _ hm (by simp [List.mem_append.1 hn])
+          exact hk
+        · obtain ⟨y, hy, rfl⟩ := List.mem_map.1 h2
+          have hf : y ∈ p₂.filter fun y => !(names p₁).contains y.1 := by
+            simp [List.mem_filter, hy, hin]
+          have hm : (y.1, (y.2 || (r₁ ++ r₂).contains y.1)) ∈ mergeProps p₁ p₂ (r₁ ++ r₂) :=
+            List.mem_append_right _ (List.mem_map.2 ⟨y, hf, rfl⟩)
+          have hk := h _ hm (by simp [List.mem_append.1 hn])
+          exact hk
+    exact ⟨fun n hn => key n (List.mem_append_left _ hn), fun n hn => key n (List.mem_append_right _ hn)⟩
+  · rintro ⟨h1, h2⟩ p hp hreq
+    rcases List.mem_append.1 hp with ha | hb
+    · obtain ⟨x, hx, rfl⟩ := List.mem_map.1 ha
+      simp only [Bool.or_eq_true, List.any_eq_true, Bool.and_eq_true, beq_iff_eq, List.contains_iff_mem,
+        List.mem_append] at hreq
+      rcases hreq with (hf | ⟨y, hy, hyn, hyf⟩) | (hr | hr)
+      · exact h1 _ (hc₁ x hx hf)
+      · have := h2 _ (hc₂ y hy hyf); rw [hyn] at this; exact this
+      · exact h1 _ hr
+      · exact h2 _ hr
+    · obtain ⟨y, hy, rfl⟩ := List.mem_map.1 hb
+      simp only [Bool.or_eq_true, List.contains_iff_mem, List.mem_append] at hreq
+      rcases hreq with hf | hr | hr
+      · exact h2 _ (hc₂ y (List.mem_filter.1 hy).1 hf)
+      · exact h1 _ hr
+      · exact h2 _ hr
+
+/-- K20 in the model: a required name that no member declares is demanded by nobody -/
+theorem ghost_required_not_demanded :
+    demands (mergeProps [(0, false)] [] ([1] ++ [])) (fun n => n = 0) ∧ ¬ (∀ n ∈ [1], (fun n => n = 0) n) := by
+  constructor
+  · intro p hp; simp [mergeProps] at hp; subst hp; simp
+  · simp
+
+example : mergeProps [(1, false), (2, true)] [(3, false), (1, true)] [3] = [(1, true), (2, true), (3, true)] := by decide
+
+def natsOf (s : String) : List Nat := if s == "-" then [] else (s.splitOn ",").filterMap String.toNat?
+def showNats (l : List Nat) : String := if l.isEmpty then "-" else ",".intercalate (l.map toString)
+/-- `emerge <e1> <e2>` (comma-separated value ids, `-` = no enum) -/
+def enumLine (p : String) : String :=
+  match p.splitOn " " with
+  | [a, b] => match mergeEnums (natsOf a) (natsOf b) with
+    | none => "refused"
+    | some r => showNats r
+  | _ => "bad"
+def prpsOf (s : String) : List Prp :=
+  if s == "-" then [] else (s.splitOn ",").filterMap fun t =>
+    match t.splitOn ":" with
+    | [n, f] => n.toNat?.map fun k => (k, f == "1")
+    | _ => none
+/-- `pmerge <props1> <req1> <props2> <req2>` (`name:flag` lists) -/
+def propsLine (p : String) : String :=
+  match p.splitOn " " with
+  | [a, ra, b, rb] =>
+    let r := mergeProps (prpsOf a) (prpsOf b) (natsOf ra ++ natsOf rb)
+    if r.isEmpty then "-" else ",".intercalate (r.map fun x => toString x.1 ++ ":" ++ (if x.2 then "1" else "0"))
+  | _ => "bad"
+
 /-! line protocol: `bmerge <max1> <ex1> <min1> <exm1> <max2> <ex2> <min2> <exm2>` (`-` = no bound, flags 0/1) -/
 def bOf (v e : String) : Bnd := ⟨if v == "-" then none else v.toInt?, e == "1"⟩
 def showB (b : Bnd) : String :=
